@@ -437,6 +437,50 @@ theorem c08_cache_observable (maxDur : Nat) (hmax : 0 < maxDur) (t0 : Nat) (evs 
   fun r hr => blackbox_of_goodRet (sub_run evs (fun _ h => (by cases h)))
     (c08_cache_outage maxDur hmax t0 evs r hr)
 
+/-! ### overlapping calls (round 5)
+
+`kstep` splits `IsAdminUser` where the real one can be interrupted: `begin` = `Get` (a valid entry is
+served at once), a *parked* call keeps the value its `Get` saw until the directory answers (`release`),
+other calls and clock advances run in between, the directory decides when it answers. -/
+
+/-- **Overlapping calls, as seen from outside**: in every interleaving of call starts, parked
+directory questions, releases and clock advances, every verdict handed out — at once or after a
+release — is explained by what the directory offered for that user at the starts and releases so far
+(`blackboxOK`, the predicate the judge applies to the verdicts of the real overlapping calls): never a
+value older than `maxDur` while the directory answers, whoever else is refreshing meanwhile. -/
+theorem c08_conc_observable (maxDur : Nat) (hmax : 0 < maxDur) (t0 : Nat) (evs : List KEv) :
+    ∀ r ∈ (krun maxDur (KState.init t0) evs).c.rets,
+      blackboxOK maxDur (krun maxDur (KState.init t0) evs).c.offered r.t r.user r.verdict = true :=
+  fun r hr => blackbox_of_goodRet (kinv_run hmax evs (kinv_init maxDur t0)).sub
+    ((kinv_run hmax evs (kinv_init maxDur t0)).inv.rets r hr)
+
+/-- **Overlapping calls fail closed**: no interleaving makes `IsAdminUser` report an administrator
+unless the directory itself said so for that user at some earlier moment. -/
+theorem c08_conc_fail_closed (maxDur : Nat) (hmax : 0 < maxDur) (t0 : Nat) (evs : List KEv) :
+    ∀ r ∈ (krun maxDur (KState.init t0) evs).c.rets, r.verdict = true →
+      ∃ t', t' ≤ r.t ∧ (⟨t', r.user, some true⟩ : Consult) ∈
+        (krun maxDur (KState.init t0) evs).c.consults := by
+  intro r hr hv
+  have hg := (kinv_run hmax evs (kinv_init maxDur t0)).inv.rets r hr
+  unfold GoodRet at hg
+  cases ho : r.origin with
+  | none => rw [ho] at hg; rw [hg.1] at hv; cases hv
+  | some t' =>
+    rw [ho] at hg
+    exact ⟨t', hg.1, hv ▸ hg.2.1⟩
+
+/-- a call whose question is not parked is the sequential `IsAdminUser` of `c08_cache` -/
+theorem c08_conc_sequential (maxDur : Nat) (s : KState) (u : Name) (dir : Option Bool) :
+    (kstep maxDur s (.begin u dir false)).c = cstep maxDur s.c (.call u dir) :=
+  kstep_sequential maxDur s u dir
+
+/-- the history of the round-5 seeded change: verdict `true` cached, membership revoked, entry expired,
+one refresh parked, a second call overlapping it — the model answers `false` to both -/
+example : ((krun 300 (KState.init 1000)
+    [.begin "bob".toList (some true) false, .advance 300, .begin "bob".toList (some false) true,
+     .begin "bob".toList (some false) false, .release 1 (some false)]).c.rets.map (·.verdict))
+    = [false, false, true] := by decide
+
 /-- the lifetime the daemon configures is the property's five minutes -/
 theorem c08_cache_lifetime :
     KM.Gen.c08AdminCacheLifetimes = [5 * 60 * 1000000000] ∧
